@@ -370,7 +370,7 @@ class Objects(_AclFamily):
     """AccessControl(AccessControlConfig(...)) objects, decisions via process_request"""
 
     name = "objects"
-    quick_n = 24000
+    quick_n = 16000
     thorough_n = 400000
 
     def setup(self):
@@ -421,7 +421,7 @@ class Wiring(_AclFamily):
     """the [access_control] table of a TOML file through to the chain and protocol the server would run"""
 
     name = "wiring"
-    quick_n = 6000
+    quick_n = 4000
     thorough_n = 100000
 
     def setup(self):
